@@ -2,6 +2,7 @@ package c11
 
 import (
 	"fmt"
+	"strings"
 
 	"verif/harness/internal/core"
 	"verif/harness/internal/diff"
@@ -94,6 +95,60 @@ func runNames(s *core.Shard, offset int) {
 		if d := diff.Compare(ri.Project, re.Project, o); d != "" {
 			s.Violation(map[string]string{"kind": "implicit-vs-explicit", "rule": "resource.name", "origin": c.id, "field": diff.PathOf(d)},
 				fmt.Sprintf("%s: resources named implicitly differ from `<project>_<key>` spelled out with the effective project name %q: %s", c.id, c.effective, d), files)
+		}
+	}
+}
+
+// A service that declares an empty `networks` joins `default`, and an undeclared `default`
+// network is added iff some service uses it - also when that service is the only user.
+func runEmptyNetworks(s *core.Shard, offset int) {
+	type ec struct {
+		id       string
+		implicit map[string]string
+		files    []string
+	}
+	other := "  b:\n    image: img\n    network_mode: host\n  c:\n    image: img\n    networks: [custom]\nnetworks:\n  custom: {}\n"
+	explicit := "services:\n  a:\n    image: img\n    networks:\n      default: null\n" + strings.Replace(other, "networks:\n  custom: {}\n", "networks:\n  custom: {}\n  default: {name: verif_default}\n", 1)
+	cases := []ec{
+		{"empty-list", map[string]string{"compose.yaml": "services:\n  a:\n    image: img\n    networks: []\n" + other}, []string{"compose.yaml"}},
+		{"empty-mapping", map[string]string{"compose.yaml": "services:\n  a:\n    image: img\n    networks: {}\n" + other}, []string{"compose.yaml"}},
+		{"emptied-by-override", map[string]string{"compose.yaml": "services:\n  a:\n    image: img\n    networks: [custom]\n" + other,
+			"override.yaml": "services:\n  a:\n    networks: !override []\n"}, []string{"compose.yaml", "override.yaml"}},
+		{"absent", map[string]string{"compose.yaml": "services:\n  a:\n    image: img\n" + other}, []string{"compose.yaml"}},
+	}
+	for i, c := range cases {
+		if !s.Mine(offset + i) {
+			continue
+		}
+		if !s.Begin("empty-networks/" + c.id) {
+			continue
+		}
+		imp := &ld.Case{Files: c.implicit, ComposeFiles: c.files}
+		exp := &ld.Case{Files: map[string]string{"compose.yaml": explicit}, ComposeFiles: []string{"compose.yaml"}}
+		_, ri := ld.Run(s.Scratch(), imp)
+		_, re := ld.Run(s.Scratch(), exp)
+		s.Eval(2)
+		files := map[string]any{"case.json": replayCase{Kind: "empty-networks", Implicit: imp, Variant: exp, Rule: "default-network", Origin: c.id}}
+		if ri.Panic != nil || re.Panic != nil {
+			s.Violation(map[string]string{"kind": "panic", "origin": c.id}, "load panicked", files)
+			continue
+		}
+		if re.Err != nil {
+			s.Inconclusive("empty-networks: the explicit document does not load: " + re.Err.Error())
+			continue
+		}
+		s.Cover("resource-name-scenario", "empty-networks/"+c.id)
+		s.Nontrivial("empty-networks", c.id)
+		if ri.Err != nil {
+			s.Violation(map[string]string{"kind": "implicit-vs-explicit", "rule": "default-network", "origin": c.id},
+				fmt.Sprintf("%s: a service with an empty/absent `networks` is the only user of the default network; the implicit document fails to load: %v", c.id, ri.Err), files)
+			continue
+		}
+		o := diff.Default()
+		o.IgnoreField["ComposeFiles"] = true
+		if d := diff.Compare(ri.Project, re.Project, o); d != "" {
+			s.Violation(map[string]string{"kind": "implicit-vs-explicit", "rule": "default-network", "origin": c.id, "field": diff.PathOf(d)},
+				fmt.Sprintf("%s: implicit default network differs from the explicit spelling: %s", c.id, d), files)
 		}
 	}
 }
